@@ -436,7 +436,8 @@ theorem concatLoop_spec (text : List Char) (file : List UInt8) (b : Bool) :
           (concatLoop LS b f T p).1.text = T.text ++ encodeChars v ∧
           (concatLoop LS b f T p).2.tokens = pushed.map (conv text file) ∧
           (pushed = [] → (concatLoop LS b f T p).2.src.toks = []) ∧
-          (concatLoop LS b f T p).2.src.tail = p.src.tail)) := by
+          (concatLoop LS b f T p).2.src.tail = p.src.tail ∧
+          (∀ e e2 r, pushed = e :: e2 :: r → e.tok = .unq ['+']))) := by
   intro f
   induction f with
   | zero => intro ts T p _ h; omega
@@ -453,7 +454,7 @@ theorem concatLoop_spec (text : List Char) (file : List UInt8) (b : Bool) :
       | none =>
         right
         obtain ⟨e1, e2⟩ := h8 htail
-        refine ⟨by rw [e1]; exact hat.clean, [], [], ?_, by simp [Goyang.Model.Utf8.encodeChars], ?_, fun _ => h5, e2⟩
+        refine ⟨by rw [e1]; exact hat.clean, [], [], ?_, by simp [Goyang.Model.Utf8.encodeChars], ?_, fun _ => h5, e2, (fun _ _ _ h => by cases h)⟩
         · rw [h5]; exact concatTail_nil text b
         · rw [h2, hat.stack]; rfl
       | some e =>
@@ -484,7 +485,7 @@ theorem concatLoop_spec (text : List Char) (file : List UInt8) (b : Bool) :
               right
               obtain ⟨e1, e2⟩ := g8 (h8.trans htail)
               refine ⟨by rw [(push_fields _ _).1, e1]; exact hclean1, [], [nt], ?_,
-                by simp [Goyang.Model.Utf8.encodeChars], ?_, (fun h => by cases h), ?_⟩
+                by simp [Goyang.Model.Utf8.encodeChars], ?_, (fun h => by cases h), ?_, (fun _ _ _ h => by cases h)⟩
               · rw [(push_fields _ _).1, g5]; exact concatTail_single text b nt
               · rw [(push_fields _ _).2.2.2, g2, hstack1]; rfl
               · rw [(push_fields _ _).1, e2]
@@ -516,7 +517,7 @@ theorem concatLoop_spec (text : List Char) (file : List UInt8) (b : Bool) :
                    g6.trans (h6.trans hat.text), g7.trans (h7.trans hat.file)⟩
                 rcases ih ts2 { T with text := T.text ++ (conv text file nnt).text } _ hat2
                     (by simp only [List.length_cons] at hf; omega)
-                    (fun t ht => hadm t (by simp [ht])) with ⟨hb, hsp⟩ | ⟨hc, v, pushed, hsp, htx, htk, hpe, htl⟩
+                    (fun t ht => hadm t (by simp [ht])) with ⟨hb, hsp⟩ | ⟨hc, v, pushed, hsp, htx, htk, hpe, htl, hsh⟩
                 · left
                   refine ⟨hb, ?_⟩
                   rcases hsp with hsp | ⟨v, rest, hsp, hnt'⟩
@@ -525,7 +526,7 @@ theorem concatLoop_spec (text : List Char) (file : List UInt8) (b : Bool) :
                       concatTail_plus_quoted_some text b nt nnt ts2 hnt hquoted v1 v rest hv1 hsp, hnt'⟩
                 · right
                   refine ⟨hc, v1 ++ v, pushed,
-                    concatTail_plus_quoted_some text b nt nnt ts2 hnt hquoted v1 v _ hv1 hsp, ?_, htk, hpe, ?_⟩
+                    concatTail_plus_quoted_some text b nt nnt ts2 hnt hquoted v1 v _ hv1 hsp, ?_, htk, hpe, ?_, hsh⟩
                   · rw [htx]; simp only; rw [encodeChars_append, ← hev1, List.append_assoc]
                   · rw [htl, g8, h8]
             · rw [if_neg hq]
@@ -534,7 +535,8 @@ theorem concatLoop_spec (text : List Char) (file : List UInt8) (b : Bool) :
                 | false => rfl
                 | true => exact absurd ((tokCode_string nnt.tok).2 hh) hq
               right
-              refine ⟨?_, [], [nt, nnt], ?_, by simp [Goyang.Model.Utf8.encodeChars], ?_, (fun h => by cases h), ?_⟩
+              refine ⟨?_, [], [nt, nnt], ?_, by simp [Goyang.Model.Utf8.encodeChars], ?_, (fun h => by cases h), ?_,
+                (fun e e2 r h => by simp only [List.cons.injEq] at h; rw [← h.1]; exact hnt)⟩
               · rw [(push_fields _ _).1, g9 (badEsc_not_quoted b nnt hnquoted)]; exact hclean1
               · rw [(push_fields _ _).1, g5]
                 exact concatTail_plus_other text b nt nnt ts2 hnquoted
@@ -544,7 +546,7 @@ theorem concatLoop_spec (text : List Char) (file : List UInt8) (b : Bool) :
           have hnt : nt.tok ≠ .unq ['+'] := fun h => hplus ((conv_plus text file nt hcode).2 h)
           right
           refine ⟨by rw [(push_fields _ _).1]; exact hclean1, [], [nt], ?_,
-            by simp [Goyang.Model.Utf8.encodeChars], ?_, (fun h => by cases h), ?_⟩
+            by simp [Goyang.Model.Utf8.encodeChars], ?_, (fun h => by cases h), ?_, (fun _ _ _ h => by cases h)⟩
           · rw [(push_fields _ _).1, h5]; exact concatTail_not_plus text b nt ts1 hnt
           · rw [(push_fields _ _).2.2.2, hstack1]; rfl
           · rw [(push_fields _ _).1, h8]
@@ -563,9 +565,97 @@ theorem concatLoop_spec (text : List Char) (file : List UInt8) (b : Bool) :
         · have hbad' : badEsc b nt = false := by simpa using hbad
           right
           refine ⟨by rw [(push_fields _ _).1, h9 hbad']; exact hat.clean, [], [nt], ?_,
-            by simp [Goyang.Model.Utf8.encodeChars], ?_, (fun h => by cases h), ?_⟩
+            by simp [Goyang.Model.Utf8.encodeChars], ?_, (fun h => by cases h), ?_, (fun _ _ _ h => by cases h)⟩
           · rw [(push_fields _ _).1, h5]; exact concatTail_not_plus text b nt ts1 hnt
           · rw [(push_fields _ _).2.2.2, hstack1]; rfl
           · rw [(push_fields _ _).1, h8]
+
+theorem next_pop (b : Bool) (f : Nat) (p : P) (t : Token) (ts : List Token) (h : p.tokens = t :: ts) :
+    next LS b f p = (some t, { p with tokens := ts }) := by
+  unfold next; rw [h]
+
+/-- fetching at the end of the tokens -/
+theorem next_nil (text : List Char) (file : List UInt8) (b : Bool) (f : Nat) (p : P) (hat : At text file p []) :
+    (next LS b f p).1 = none ∧
+    (p.src.tail ≠ none → Bad (next LS b f p).2) ∧
+    (p.src.tail = none → At text file (next LS b f p).2 [] ∧ (next LS b f p).2.src.tail = none ∧
+      (next LS b f p).2.depth = p.depth) := by
+  unfold next
+  rw [hat.stack]
+  simp only
+  obtain ⟨h1, h2, h3, h4, h5, h6, h7, h8, h9, _⟩ := pullTok_nil b p hat.toks
+  rw [h1]
+  simp only
+  refine ⟨trivial, h9, fun ht => ?_⟩
+  obtain ⟨e1, e2⟩ := h8 ht
+  exact ⟨⟨h2.trans hat.stack, h5, e1.trans hat.clean, h4.trans hat.fault, h6.trans hat.text, h7.trans hat.file⟩, e2, h3⟩
+
+/-- fetching a token that is not a quoted string -/
+theorem next_plain (text : List Char) (file : List UInt8) (b : Bool) (f : Nat) (p : P) (t : PTok) (ts : List PTok)
+    (hat : At text file p (t :: ts)) (hq : t.tok.isQuoted = false) :
+    (next LS b f p).1 = some (conv text file t) ∧ At text file (next LS b f p).2 ts ∧
+    (next LS b f p).2.src.tail = p.src.tail ∧ (next LS b f p).2.depth = p.depth := by
+  unfold next
+  rw [hat.stack]
+  simp only
+  obtain ⟨h1, h2, h3, h4, h5, h6, h7, h8, h9, _⟩ := pullTok_cons b p t ts hat.toks
+  rw [h1]
+  simp only
+  have hns : ¬ (conv p.src.text p.src.file t).code = Code.string := by
+    intro h
+    rw [conv_code] at h
+    rw [(tokCode_string t.tok).1 h] at hq
+    cases hq
+  rw [if_neg hns, hat.text, hat.file]
+  exact ⟨rfl, ⟨h2.trans hat.stack, h5, (h9 (badEsc_not_quoted b t hq)).trans hat.clean, h4.trans hat.fault,
+    h6.trans hat.text, h7.trans hat.file⟩, h8, h3⟩
+
+/-- fetching a quoted string: the pieces joined by `+` come back as one token -/
+theorem next_quoted (text : List Char) (file : List UInt8) (b : Bool) (f : Nat) (p : P) (t : PTok) (ts : List PTok)
+    (hat : At text file p (t :: ts)) (hq : t.tok.isQuoted = true) (hf : ts.length + 1 ≤ f)
+    (hadm : ∀ x ∈ t :: ts, okTok x) :
+    ∃ T, (next LS b f p).1 = some T ∧ T.code = Code.string ∧ T.file = file ∧
+      T.line = lineOf text t.off ∧ T.col = colOf text t.off ∧
+      (next LS b f p).2.fault = .none ∧ (next LS b f p).2.depth = p.depth ∧
+      (next LS b f p).2.src.text = text ∧ (next LS b f p).2.src.file = file ∧
+      ((Bad (next LS b f p).2 ∧
+          (piece text b t = none ∨ concatTail text b ts = none ∨
+            ∃ v rest, concatTail text b ts = some (v, rest) ∧ NoTerm rest)) ∨
+       ((next LS b f p).2.src.errs = [] ∧
+          ∃ v0 v pushed, piece text b t = some v0 ∧
+            concatTail text b ts = some (v, pushed ++ (next LS b f p).2.src.toks) ∧
+            T.text = encodeChars (v0 ++ v) ∧
+            (next LS b f p).2.tokens = pushed.map (conv text file) ∧
+            (pushed = [] → (next LS b f p).2.src.toks = []) ∧
+            (next LS b f p).2.src.tail = p.src.tail ∧
+            (∀ e e2 r, pushed = e :: e2 :: r → e.tok = .unq ['+']))) := by
+  unfold next
+  rw [hat.stack]
+  simp only
+  obtain ⟨h1, h2, h3, h4, h5, h6, h7, h8, h9, h10, _⟩ := pullTok_cons b p t ts hat.toks
+  rw [h1]
+  simp only
+  have hs : (conv p.src.text p.src.file t).code = Code.string := by
+    rw [conv_code]; exact (tokCode_string t.tok).2 hq
+  rw [if_pos hs, hat.text, hat.file]
+  obtain ⟨c1, c2, c3, c4, c5, c6, c7, c8⟩ := concatLoop_frame b f (conv text file t) (pullTok LS b p).2
+    (by rw [h5]; exact hf)
+  obtain ⟨pb, pg⟩ := piece_spec text file b t hq (hadm t (by simp))
+  refine ⟨_, rfl, c1.trans (by rw [← hat.text, ← hat.file]; exact hs), c2, c3, c4, c5.trans (h4.trans hat.fault),
+    c6.trans h3, c7.trans (h6.trans hat.text), c8.trans (h7.trans hat.file), ?_⟩
+  by_cases hbad : badEsc b t = true
+  · left
+    exact ⟨concatLoop_bad b f _ _ (h10 hbad), Or.inl (pb hbad)⟩
+  · have hbad' : badEsc b t = false := by simpa using hbad
+    obtain ⟨v0, hv0, hev0⟩ := pg hbad'
+    have hat1 : At text file (pullTok LS b p).2 ts :=
+      ⟨h2.trans hat.stack, h5, (h9 hbad').trans hat.clean, h4.trans hat.fault, h6.trans hat.text, h7.trans hat.file⟩
+    rcases concatLoop_spec text file b f ts (conv text file t) _ hat1 hf (fun x hx => hadm x (by simp [hx])) with
+      ⟨hb, hsp⟩ | ⟨hc, v, pushed, hsp, htx, htk, hpe, htl, hsh⟩
+    · left
+      exact ⟨hb, Or.inr hsp⟩
+    · right
+      refine ⟨hc, v0, v, pushed, hv0, hsp, ?_, htk, hpe, htl.trans h8, hsh⟩
+      rw [htx, encodeChars_append, hev0]
 
 end Goyang.Lemmas.ListSrc
